@@ -109,15 +109,35 @@ def parse_checks(out):
 
 
 def parse_playback(out):
-    """concrete values of kani::any() in order, as lists of bytes"""
-    m = re.search(r"let concrete_vals: Vec<Vec<u8>> = vec!\[(.*?)\n    \];", out, re.S)
-    if not m:
+    """Kani prints ONE playback block per failed assertion AND per satisfied cover, each headed by
+    /// Check for `assertion`|`cover`: "<description>".  Returns {description: [byte lists]} for the
+    assertion blocks only (a cover's witness is not a counterexample: an earlier version returned a
+    single block for the whole harness and so attached cover:utf8:4-byte-char's witness to two failed
+    assertions and lost the witness of a failed unwrap)."""
+    res = {}
+    for m in re.finditer(r"/// Check for `(\w+)`: \"(.*?)\"\s*\n(.*?)let concrete_vals: Vec<Vec<u8>> = vec!\[(.*?)\n    \];", out, re.S):
+        kind, desc, _, body = m.groups()
+        if kind != "assertion":
+            continue
+        desc = desc.strip('"')
+        vals = []
+        for vm in re.finditer(r"vec!\[([0-9, ]*)\]", body):
+            t = vm.group(1).strip()
+            vals.append([int(x) for x in t.split(",") if x.strip()] if t else [])
+        res.setdefault(desc, vals)
+    return res
+
+
+def playback_for(pb, check_desc):
+    """the witness belonging to one failed check (exact description, else substring either way)"""
+    if not pb:
         return None
-    vals = []
-    for vm in re.finditer(r"vec!\[([0-9, ]*)\]", m.group(1)):
-        s = vm.group(1).strip()
-        vals.append([int(x) for x in s.split(",") if x.strip()] if s else [])
-    return vals
+    if check_desc in pb:
+        return pb[check_desc]
+    for d, v in pb.items():
+        if d and (d in check_desc or check_desc in d):
+            return v
+    return None
 
 
 def run_harness(unit_rs, harness, workdir, default_timeout=600, rss_cap=14 << 30, playback=True):
